@@ -597,7 +597,7 @@ def parse_flags(ans):
 
 def main():
     ck = Check("C05", "proof")
-    ck.lean_stage(["VelaVerif.Props.C05"])
+    ck.lean_stage(["VelaVerif.Props.C05", "VelaVerif.Props.C05Src"])
     setup_real()
     if ck.replay_arg:
         import json
